@@ -643,8 +643,42 @@ func (c *Ctx) decodeStore(f *FA, x *bvCtx, t *recTable, fk string, val ssa.Value
 	}
 	if !pointerLike(val.Type()) {
 		t.addUnresolved(fmt.Sprintf("%s: stored value %s not understood (%s)", fk, val.Name(), pos))
+		return
+	}
+	// nested record decoded through dynamic dispatch: val.Unmarshal(<octets of the input>) and val kept in the field
+	for _, b := range fn.Blocks {
+		if f.Dead[b] {
+			continue
+		}
+		for _, ins := range b.Instrs {
+			call, ok := ins.(*ssa.Call)
+			if !ok || !call.Call.IsInvoke() || call.Call.Value != val || len(call.Call.Args) != 1 || !isByteSlice(call.Call.Args[0].Type()) {
+				continue
+			}
+			if !c.isDecodeMethodName(call.Call.Method.Name()) {
+				continue
+			}
+			root, lo, hi, open := f.relSpan(call.Call.Args[0])
+			facts := f.FactsAt(b)
+			lo, hi = f.pin(lo, facts), f.pin(hi, facts)
+			ccond := c.variantCond(f, x, b)
+			if cond != "" && ccond != "" && cond != ccond {
+				ccond = ccond + " && " + cond
+			} else if ccond == "" {
+				ccond = cond
+			}
+			seg := segRow{Field: "call:" + fk, LoLF: lo, HiLF: hi, Open: open, Cond: ccond, Pos: c.InstrPos(call), Lo: c.symOffset(f, x, lo), Hi: c.symOffset(f, x, hi)}
+			if open {
+				seg.Hi = "end"
+			}
+			seg.Nested = x.rootKey(root)
+			t.Segs = append(t.Segs, seg)
+		}
 	}
 }
+
+// isDecodeMethodName: the module's codec interfaces name their decoding method Unmarshal.
+func (c *Ctx) isDecodeMethodName(n string) bool { return n == "Unmarshal" || n == "unmarshal" }
 
 // pin substitutes atoms whose value is fixed by the facts.
 func (f *FA) pin(l LF, facts []Fact) LF {
